@@ -22,7 +22,7 @@ COMMON_ASSUMPTIONS = [
 
 
 prop('C01',
-     rules=['TAB-IMPLICIT', 'TAB-OPS', 'TAB-KEYS-OPT', 'TAB-FORMATTERS', 'CENSUS', 'SIB-CARET', 'PATH-EMIT-HTML', ('PATH-STACK', ['markup']), 'PATH-PARSER-CTX', 'PATH-ONCE', ('PATH-INITORDER', ['abbreviation', 'markup'])],
+     rules=['TAB-IMPLICIT', ('TBL-CONVERT', ['abbreviation']), 'TAB-OPS', 'TAB-KEYS-OPT', 'TAB-FORMATTERS', 'CENSUS', 'SIB-CARET', 'PATH-EMIT-HTML', ('PATH-STACK', ['markup']), 'PATH-PARSER-CTX', 'PATH-ONCE', ('PATH-INITORDER', ['abbreviation', 'markup'])],
      explanation='Decides, for every path of the code, the structural clauses of the tree property: operator characters and kinds '
                  'agree between tokenizer, parser and printer (D), implicit names come from the documented table with the span/div '
                  'fallback (D). The compositional claim "exactly the denoted tree" is a runtime-value clause and is not decided.',
@@ -97,7 +97,7 @@ prop('C09',
 
 prop('C10',
      rules=['RNG-STRICT/css', ('RNG-SENT', ['css_matcher']), 'RNG-PAREN', ('RNG-STOP', ['css_matcher']), 'RNG-SCANSTATE', ('SCN-REST', ['css_matcher']), ('SCN-OVER', ['css_matcher']), ('SCN-PROGRESS', ['css_matcher']),
-            ('SCN-SKIP', ['css_matcher']), ('SCN-BLIND', ['css_matcher']), ('SIB-QUOTE', ['css_matcher']), 'RNG-TRIM', ('CNT-DEPTH', ['css_matcher']), ('SIB-ESCAPE', ['css_matcher']), ('SCN-ESCAPE', ['css_matcher', 'scanner_utils']), 'TBL-CSSSCAN'],
+            ('SCN-SKIP', ['css_matcher']), ('SCN-BLIND', ['css_matcher']), ('SIB-QUOTE', ['css_matcher']), 'RNG-TRIM', ('RNG-ORDER', ['css_matcher']), ('CNT-DEPTH', ['css_matcher']), ('SIB-ESCAPE', ['css_matcher']), ('SCN-ESCAPE', ['css_matcher', 'scanner_utils']), 'TBL-CSSSCAN'],
      explanation='Strict containment (N); arithmetic on a delimiter that may be the -1 sentinel is guarded wherever it can reach a result (N); '
                  'delimiters inside parentheses (N, known finding).',
      not_decided=['correctness of the selector/property state machine on arbitrary nesting'],
@@ -138,7 +138,7 @@ prop('C15',
      technique='reader/writer key agreement')
 
 prop('C16',
-     rules=['SCN-CORE', ('SCN-OVER', MATCH_MODS), ('SCN-PROGRESS', MATCH_MODS), ('SCN-REST', MATCH_MODS), ('SCN-SKIP', MATCH_MODS), ('SCN-BLIND', MATCH_MODS), 'SIB-VOID', 'RNG-TRIM',
+     rules=['SCN-CORE', ('SCN-OVER', MATCH_MODS), ('SCN-PROGRESS', MATCH_MODS), ('SCN-REST', MATCH_MODS), ('SCN-SKIP', MATCH_MODS), ('SCN-BLIND', MATCH_MODS), 'SIB-VOID', 'RNG-TRIM', 'RNG-ORDER',
             ('PATH-FLAG', MATCH_MODS), ('CNT-DEPTH', MATCH_MODS), ('RNG-STOP', MATCH_MODS), 'RNG-SCANSTATE', ('RNG-FRAME', ['html_matcher']), 'SIB-HTMLSTACK', 'SIB-ESCAPE', 'SCN-ESCAPE', 'RNG-SENT', 'RNG-STRICT/html', 'RNG-STRICT/css', 'EXC-RAISE/matcher', 'EXC-THROWS', 'TBL-HTMLSCAN', 'TBL-CSSSCAN'],
      explanation='No explicit raise is reachable from the matchers (D); sentinel arithmetic guarded (N); strict containment (N).',
      not_decided=['relational clauses between match / balanced_outward / balanced_inward beyond predicate agreement'],
@@ -161,7 +161,7 @@ prop('C18',
 prop('C19',
      rules=[('TBL-NUMBER', ['math_expression']), 'EXC-RAISE/math', 'DEC-PRIO', 'TAB-MATHOPS', ('RNG-CLAMP', ['math_expression']), ('EXC-NUMCONV', ['math_expression']),
             ('SCN-OVER', ['math_expression']), ('SCN-PROGRESS', ['math_expression']), ('SCN-REST', ['math_expression']),
-            'RNG-BALANCED', ('CNT-DEPTH', ['math_expression']), ('DEC-CHARCLASS', ['math_expression', 'scanner_utils']), ('OWN-GLOBAL', ['math_expression']), ('EXC-INDEX', ['math_expression'])],
+            'RNG-BALANCED', ('RNG-ORDER', ['math_expression']), ('CNT-DEPTH', ['math_expression']), ('DEC-CHARCLASS', ['math_expression', 'scanner_utils']), ('OWN-GLOBAL', ['math_expression']), ('EXC-INDEX', ['math_expression'])],
      explanation='Only MathExpressionException is raised explicitly (D); the precedence table satisfies the documented orderings and a prefix sign never '
                  'reduces a pending operator (N, finite table); every accepted operator has an evaluator with the right operand order (D); extract clamps its position (D).',
      not_decided=['arithmetic values'],
